@@ -1,7 +1,897 @@
-//! C13 — not built yet.
-use crate::report::Tier;
+//! C13 — SPARQL answers equal evaluation over the stored triple set.
+//!
+//! (a) store level: `RdfStore` against an ordered-set model after EVERY operation of random
+//!     insert / remove / clear sequences (all eight bound/unbound lookup shapes, both
+//!     `index_objects` settings), the transaction-buffer API against a snapshot+overlay
+//!     model with named deviation rules (scheme 2), and `TripleRing` built from the same set.
+//! (b) query level: random SPARQL-core queries and updates through `execute_sparql`
+//!     against the reference evaluator in `c13_sparql.rs`; mismatches are shrunk and
+//!     identified by (skeleton of the minimal witness, mismatch kind) (scheme 3).
+//! (c) a small directed matrix: SPARQL inside a session transaction (read-your-writes).
 
-pub fn run(_tier: Tier, _seed: u64) -> ! {
-    println!("INCONCLUSIVE property=C13 reason=monitor not built yet");
-    std::process::exit(2)
+#[path = "c13_sparql.rs"]
+mod sparql;
+
+use crate::report::{Report, Tier};
+use crate::rng::{Rng, hash_str};
+use crate::util::catch;
+use grafeo_common::types::TxId;
+use grafeo_core::graph::rdf::{RdfStore, RdfStoreConfig, Term, Triple, TriplePattern};
+use grafeo_core::index::ring::{RingIterator, TripleRing};
+use serde_json::{Value as J, json};
+use sparql::{Outcome, TKey, Universe, nt, tkey};
+use std::collections::{BTreeMap, BTreeSet};
+use std::sync::Arc;
+
+const RULE_DUP: &str = "C13-F1";
+const RULE_KEEP: &str = "C13-F2";
+
+// ---------------------------------------------------------------------------------------
+// per-case log, merged into the report in case order (cases run on worker threads)
+// ---------------------------------------------------------------------------------------
+
+#[derive(Default)]
+struct Log {
+    evals: u64,
+    counts: BTreeMap<String, u64>,
+    nontrivial: Vec<u64>,
+    samples: Vec<J>,
+    deviations: Vec<(String, J)>,
+    /// rule id -> (observations explained by it in this case, example)
+    known_rules: BTreeMap<String, (u64, String)>,
+    rejected: Vec<(String, String)>,
+}
+impl Log {
+    fn count(&mut self, k: &str, n: u64) {
+        *self.counts.entry(k.to_string()).or_insert(0) += n;
+    }
+    fn known_rule(&mut self, rule: &str, example: impl FnOnce() -> String) {
+        if let Some(e) = self.known_rules.get_mut(rule) {
+            e.0 += 1;
+        } else {
+            self.known_rules.insert(rule.to_string(), (1, example()));
+        }
+    }
+    fn deviation(&mut self, sig: &str, detail: J) {
+        // keep one detail per signature and case
+        if !self.deviations.iter().any(|(s, _)| s == sig) {
+            self.deviations.push((sig.to_string(), detail));
+        } else {
+            self.count("repeated_deviation_in_case", 1);
+        }
+    }
+    fn merge_into(self, rep: &mut Report, rejected: &mut BTreeMap<String, (u64, String)>) {
+        rep.evals(self.evals);
+        for (k, n) in self.counts {
+            rep.count(&k, n);
+        }
+        for h in self.nontrivial {
+            rep.nontrivial(h);
+        }
+        for s in self.samples {
+            rep.sample(s);
+        }
+        for (s, d) in self.deviations {
+            rep.deviation(&s, d);
+        }
+        for (r, (n, e)) in self.known_rules {
+            // one KNOWN-FINDING occurrence per case; the raw number of explained observations is a counter
+            rep.known_rule(&r, &e);
+            rep.count(&format!("explained_by_rule.{r}"), n);
+        }
+        for (msg, text) in self.rejected {
+            let e = rejected.entry(msg).or_insert((0, text));
+            e.0 += 1;
+        }
+    }
+}
+
+fn par_cases<F: Fn(u64) -> Log + Sync>(n: u64, f: F) -> Vec<Log> {
+    let threads = std::thread::available_parallelism().map(|x| x.get()).unwrap_or(4).min(16) as u64;
+    let mut slots: Vec<Option<Log>> = (0..n).map(|_| None).collect();
+    std::thread::scope(|s| {
+        let mut hs = Vec::new();
+        for t in 0..threads {
+            let f = &f;
+            hs.push(s.spawn(move || {
+                let mut out = Vec::new();
+                let mut i = t;
+                while i < n {
+                    out.push((i, f(i)));
+                    i += threads;
+                }
+                out
+            }));
+        }
+        for h in hs {
+            for (i, l) in h.join().expect("worker thread (harness bug: panic outside catch)") {
+                slots[i as usize] = Some(l);
+            }
+        }
+    });
+    slots.into_iter().map(|x| x.unwrap()).collect()
+}
+
+// ---------------------------------------------------------------------------------------
+// (a) store level
+// ---------------------------------------------------------------------------------------
+
+type Model = BTreeMap<TKey, Triple>;
+
+#[derive(Clone)]
+enum POp {
+    Ins(Triple),
+    Del(Triple),
+}
+
+const SHAPES: [(bool, bool, bool); 8] = [
+    (false, false, false),
+    (true, false, false),
+    (false, true, false),
+    (false, false, true),
+    (true, true, false),
+    (true, false, true),
+    (false, true, true),
+    (true, true, true),
+];
+fn shape_name(s: (bool, bool, bool)) -> String {
+    format!("{}{}{}", if s.0 { 'S' } else { '-' }, if s.1 { 'P' } else { '-' }, if s.2 { 'O' } else { '-' })
+}
+fn pattern(s: (bool, bool, bool), probe: &(Term, Term, Term)) -> TriplePattern {
+    TriplePattern { subject: s.0.then(|| probe.0.clone()), predicate: s.1.then(|| probe.1.clone()), object: s.2.then(|| probe.2.clone()) }
+}
+fn model_find(m: &Model, p: &TriplePattern) -> Vec<TKey> {
+    m.iter().filter(|(_, t)| p.matches(t)).map(|(k, _)| k.clone()).collect()
+}
+
+/// Compare an observed list (any order) with the expected sorted keys: exactly those, once each.
+fn list_kind(obs: &mut Vec<TKey>, exp: &[TKey]) -> Option<&'static str> {
+    obs.sort();
+    if obs.as_slice() == exp {
+        return None;
+    }
+    let n = obs.len();
+    obs.dedup();
+    let repeated = obs.len() < n;
+    let e: BTreeSet<&TKey> = exp.iter().collect();
+    let o: BTreeSet<&TKey> = obs.iter().collect();
+    let missing = e.difference(&o).next().is_some();
+    let extra = o.difference(&e).next().is_some();
+    Some(match (repeated, missing, extra) {
+        (true, false, false) => "repeated",
+        (_, true, false) => "missing",
+        (_, false, true) => "extra",
+        (_, true, true) => "missing+extra",
+        (false, false, false) => unreachable!(),
+    })
+}
+fn keys_of(v: &[Arc<Triple>]) -> Vec<TKey> {
+    v.iter().map(|t| tkey(t)).collect()
+}
+
+/// find_with_pending under the spec or under the named deviation rules (multiset, sorted).
+fn fwp_model(m: &Model, ops: &[POp], p: &TriplePattern, dup: bool, keep: bool) -> Vec<TKey> {
+    let committed = model_find(m, p);
+    let mut out: Vec<TKey> = match (dup, keep) {
+        (false, false) => {
+            // the specification: the transaction's own operations applied in order
+            let mut s: BTreeSet<TKey> = committed.into_iter().collect();
+            for op in ops {
+                match op {
+                    POp::Ins(t) if p.matches(t) => {
+                        s.insert(tkey(t));
+                    }
+                    POp::Del(t) => {
+                        s.remove(&tkey(t));
+                    }
+                    _ => {}
+                }
+            }
+            s.into_iter().collect()
+        }
+        (true, false) => {
+            // pending inserts appended without looking for an equal triple
+            let mut v = committed;
+            for op in ops {
+                match op {
+                    POp::Ins(t) if p.matches(t) => v.push(tkey(t)),
+                    POp::Del(t) => {
+                        let k = tkey(t);
+                        v.retain(|x| *x != k);
+                    }
+                    _ => {}
+                }
+            }
+            v
+        }
+        (d, true) => {
+            // pending deletes hide committed triples only; every pending insert shows
+            let dels: BTreeSet<TKey> = ops.iter().filter_map(|o| if let POp::Del(t) = o { Some(tkey(t)) } else { None }).collect();
+            let mut v: Vec<TKey> = committed.into_iter().filter(|k| !dels.contains(k)).collect();
+            for op in ops {
+                if let POp::Ins(t) = op {
+                    if p.matches(t) {
+                        v.push(tkey(t));
+                    }
+                }
+            }
+            if !d {
+                v.sort();
+                v.dedup();
+            }
+            v
+        }
+    };
+    out.sort();
+    out
+}
+
+struct StoreCtx<'a> {
+    log: &'a mut Log,
+    idx: bool,
+    rule_dup: bool,
+    rule_keep: bool,
+}
+impl StoreCtx<'_> {
+    fn sig(&self, api: &str, shape: &str, kind: &str) -> String {
+        format!("store:{api}|{shape}|idxobj={}|{kind}", if self.idx { "on" } else { "off" })
+    }
+    fn dev(&mut self, api: &str, shape: &str, kind: &str, detail: J) {
+        let s = self.sig(api, shape, kind);
+        self.log.deviation(&s, detail);
+    }
+    fn panic(&mut self, api: &str, p: crate::util::Panic) {
+        self.log.deviation(&format!("panic@{}", p.site), json!({"api": api, "panic": p.msg, "at": p.at}));
+    }
+}
+
+fn check_lookups(cx: &mut StoreCtx, st: &RdfStore, m: &Model, overlays: &BTreeMap<u64, Vec<POp>>, probes: &[(Term, Term, Term)], history: &dyn Fn() -> J) {
+    cx.log.evals += 1;
+    // len / is_empty / stats
+    match catch(|| (st.len(), st.is_empty(), st.stats())) {
+        Ok((len, empty, stats)) => {
+            if len != m.len() || empty != m.is_empty() {
+                cx.dev("len", "-", "wrong", json!({"len": len, "is_empty": empty, "model": m.len(), "history": history()}));
+            }
+            let subj: BTreeSet<&String> = m.keys().map(|k| &k.0).collect();
+            let pred: BTreeSet<&String> = m.keys().map(|k| &k.1).collect();
+            let obj: BTreeSet<&String> = m.keys().map(|k| &k.2).collect();
+            let want_obj = if cx.idx { obj.len() } else { 0 }; // documented: 0 if object index disabled
+            if stats.triple_count != m.len() || stats.subject_count != subj.len() || stats.predicate_count != pred.len() || stats.object_count != want_obj {
+                cx.dev(
+                    "stats",
+                    "-",
+                    "wrong",
+                    json!({"stats": format!("{stats:?}"), "model": [m.len(), subj.len(), pred.len(), want_obj], "history": history()}),
+                );
+            }
+        }
+        Err(p) => cx.panic("len/stats", p),
+    }
+    for probe in probes {
+        for s in SHAPES {
+            let pat = pattern(s, probe);
+            let exp = model_find(m, &pat);
+            let sn = shape_name(s);
+            cx.log.count(&format!("store.find.{sn}"), 1);
+            if !exp.is_empty() {
+                cx.log.count("store.find.nonempty", 1);
+            }
+            match catch(|| st.find(&pat)) {
+                Ok(v) => {
+                    if let Some(k) = list_kind(&mut keys_of(&v), &exp) {
+                        cx.dev("find", &sn, k, json!({"pattern": format!("{pat:?}"), "observed": v.len(), "expected": exp.len(), "history": history()}));
+                    }
+                }
+                Err(p) => cx.panic("find", p),
+            }
+            // no transaction: same as find
+            match catch(|| st.find_with_pending(&pat, None)) {
+                Ok(v) => {
+                    if let Some(k) = list_kind(&mut keys_of(&v), &exp) {
+                        cx.dev("find_with_pending(None)", &sn, k, json!({"pattern": format!("{pat:?}"), "history": history()}));
+                    }
+                }
+                Err(p) => cx.panic("find_with_pending", p),
+            }
+            for (tx, ops) in overlays {
+                let spec = fwp_model(m, ops, &pat, false, false);
+                cx.log.count("store.find_with_pending", 1);
+                match catch(|| st.find_with_pending(&pat, Some(TxId::new(*tx)))) {
+                    Ok(v) => {
+                        let mut o = keys_of(&v);
+                        o.sort();
+                        if o == spec {
+                            continue;
+                        }
+                        let devm = fwp_model(m, ops, &pat, cx.rule_dup, cx.rule_keep);
+                        if (cx.rule_dup || cx.rule_keep) && o == devm {
+                            // name the rules whose removal changes the prediction
+                            if cx.rule_dup && fwp_model(m, ops, &pat, false, cx.rule_keep) != devm {
+                                cx.log.known_rule(RULE_DUP, || format!("rule:{RULE_DUP} shape {sn}"));
+                            }
+                            if cx.rule_keep && fwp_model(m, ops, &pat, cx.rule_dup, false) != devm {
+                                cx.log.known_rule(RULE_KEEP, || format!("rule:{RULE_KEEP} shape {sn}"));
+                            }
+                            continue;
+                        }
+                        let k = list_kind(&mut o.clone(), &spec).unwrap_or("wrong");
+                        cx.dev(
+                            "find_with_pending",
+                            &sn,
+                            k,
+                            json!({"pattern": format!("{pat:?}"), "observed": o.len(), "spec": spec.len(), "with_open_rules": devm.len(), "history": history()}),
+                        );
+                    }
+                    Err(p) => cx.panic("find_with_pending", p),
+                }
+            }
+        }
+        // the three direct accessors
+        let singles: [(&str, (bool, bool, bool), Box<dyn Fn() -> Vec<Arc<Triple>> + '_>); 3] = [
+            ("triples_with_subject", (true, false, false), Box::new(|| st.triples_with_subject(&probe.0))),
+            ("triples_with_predicate", (false, true, false), Box::new(|| st.triples_with_predicate(&probe.1))),
+            ("triples_with_object", (false, false, true), Box::new(|| st.triples_with_object(&probe.2))),
+        ];
+        for (api, s, f) in singles {
+            let exp = model_find(m, &pattern(s, probe));
+            match catch(f) {
+                Ok(v) => {
+                    if let Some(k) = list_kind(&mut keys_of(&v), &exp) {
+                        cx.dev(api, &shape_name(s), k, json!({"term": format!("{probe:?}"), "observed": v.len(), "expected": exp.len(), "history": history()}));
+                    }
+                }
+                Err(p) => cx.panic(api, p),
+            }
+        }
+        let t = Triple::new(probe.0.clone(), probe.1.clone(), probe.2.clone());
+        match catch(|| st.contains(&t)) {
+            Ok(b) => {
+                if b != m.contains_key(&tkey(&t)) {
+                    cx.dev("contains", "SPO", "wrong", json!({"triple": nt(&t), "observed": b, "history": history()}));
+                }
+            }
+            Err(p) => cx.panic("contains", p),
+        }
+    }
+    for (tx, ops) in overlays {
+        if let Ok(b) = catch(|| st.has_pending_ops(TxId::new(*tx))) {
+            if b != !ops.is_empty() {
+                cx.dev("has_pending_ops", "-", "wrong", json!({"observed": b, "pending": ops.len(), "history": history()}));
+            }
+        }
+    }
+}
+
+fn check_full(cx: &mut StoreCtx, st: &RdfStore, m: &Model, history: &dyn Fn() -> J) {
+    let exp: Vec<TKey> = m.keys().cloned().collect();
+    match catch(|| st.triples()) {
+        Ok(v) => {
+            if let Some(k) = list_kind(&mut keys_of(&v), &exp) {
+                cx.dev("triples", "---", k, json!({"observed": v.len(), "expected": exp.len(), "history": history()}));
+            }
+        }
+        Err(p) => cx.panic("triples", p),
+    }
+    let sets: [(&str, Box<dyn Fn() -> Vec<Term> + '_>, BTreeSet<String>); 3] = [
+        ("subjects", Box::new(|| st.subjects()), m.keys().map(|k| k.0.clone()).collect()),
+        ("predicates", Box::new(|| st.predicates()), m.keys().map(|k| k.1.clone()).collect()),
+        ("objects", Box::new(|| st.objects()), m.keys().map(|k| k.2.clone()).collect()),
+    ];
+    for (api, f, exp) in sets {
+        match catch(f) {
+            Ok(v) => {
+                let mut o: Vec<String> = v.iter().map(|t| t.to_string()).collect();
+                o.sort();
+                let e: Vec<String> = exp.into_iter().collect();
+                if o != e {
+                    cx.dev(api, "-", "wrong", json!({"observed": o.len(), "expected": e.len(), "history": history()}));
+                }
+            }
+            Err(p) => cx.panic(api, p),
+        }
+    }
+}
+
+fn check_ring(cx: &mut StoreCtx, r: &mut Rng, m: &Model, probes: &[(Term, Term, Term)]) {
+    cx.log.evals += 1;
+    cx.log.count("ring.built", 1);
+    let mut ts: Vec<Triple> = m.values().cloned().collect();
+    // the constructor promises to remove duplicates
+    for _ in 0..r.below(4) {
+        if !ts.is_empty() {
+            let t = r.pick(&ts).clone();
+            ts.push(t);
+        }
+    }
+    r.shuffle(&mut ts);
+    let exp_all: Vec<TKey> = m.keys().cloned().collect();
+    let n_terms: BTreeSet<&String> = m.keys().flat_map(|k| [&k.0, &k.1, &k.2]).collect();
+    let dev = |cx: &mut StoreCtx, api: &str, shape: &str, kind: &str, d: J| {
+        cx.log.deviation(&format!("ring:{api}|{shape}|{kind}"), d);
+    };
+    let data = || json!(m.values().map(nt).collect::<Vec<_>>());
+    let ring = match catch(|| TripleRing::from_triples(ts.into_iter())) {
+        Ok(r) => r,
+        Err(p) => return cx.panic("TripleRing::from_triples", p),
+    };
+    let res = catch(|| {
+        let mut out: Vec<(String, String, String, J)> = Vec::new();
+        if ring.len() != m.len() || ring.is_empty() != m.is_empty() {
+            out.push(("len".into(), "-".into(), "wrong".into(), json!({"len": ring.len(), "model": m.len()})));
+        }
+        if ring.num_terms() != n_terms.len() {
+            out.push(("num_terms".into(), "-".into(), "wrong".into(), json!({"num_terms": ring.num_terms(), "model": n_terms.len()})));
+        }
+        let mut all: Vec<TKey> = (0..ring.len()).filter_map(|i| ring.get_spo(i)).map(|t| tkey(&t)).collect();
+        if let Some(k) = list_kind(&mut all, &exp_all) {
+            out.push(("get_spo".into(), "---".into(), k.into(), json!({})));
+        }
+        if ring.get_spo(ring.len()).is_some() {
+            out.push(("get_spo".into(), "---".into(), "past_end".into(), json!({})));
+        }
+        // the two permutations are bijections with working inverses
+        for (name, fwd, inv) in [
+            ("pos", &(|i| ring.spo_to_pos(i)) as &dyn Fn(usize) -> Option<usize>, &(|i| ring.pos_to_spo(i)) as &dyn Fn(usize) -> Option<usize>),
+            ("osp", &(|i| ring.spo_to_osp(i)), &(|i| ring.osp_to_spo(i))),
+        ] {
+            let mut seen = BTreeSet::new();
+            for i in 0..ring.len() {
+                match fwd(i) {
+                    Some(j) if j < ring.len() && inv(j) == Some(i) => {
+                        seen.insert(j);
+                    }
+                    other => {
+                        out.push((format!("perm_{name}"), "-".into(), "roundtrip".into(), json!({"i": i, "forward": other})));
+                        break;
+                    }
+                }
+            }
+            if seen.len() != ring.len() && !out.iter().any(|o| o.0 == format!("perm_{name}")) {
+                out.push((format!("perm_{name}"), "-".into(), "not_bijective".into(), json!({})));
+            }
+        }
+        let mut it: Vec<TKey> = RingIterator::all(&ring).map(|t| tkey(&t)).collect();
+        if let Some(k) = list_kind(&mut it, &exp_all) {
+            out.push(("iter_all".into(), "---".into(), k.into(), json!({})));
+        }
+        for probe in probes {
+            for s in SHAPES {
+                let pat = pattern(s, probe);
+                let exp = model_find(m, &pat);
+                let sn = shape_name(s);
+                let mut f: Vec<TKey> = ring.find(&pat).map(|t| tkey(&t)).collect();
+                if let Some(k) = list_kind(&mut f, &exp) {
+                    out.push(("find".into(), sn.clone(), k.into(), json!({"pattern": format!("{pat:?}")})));
+                }
+                let c = ring.count(&pat);
+                if c != exp.len() {
+                    out.push(("count".into(), sn.clone(), "wrong".into(), json!({"pattern": format!("{pat:?}"), "count": c, "expected": exp.len()})));
+                }
+            }
+            for (api, s, mut v) in [
+                ("iter_subject", (true, false, false), RingIterator::with_subject(&ring, &probe.0).map(|t| tkey(&t)).collect::<Vec<_>>()),
+                ("iter_predicate", (false, true, false), RingIterator::with_predicate(&ring, &probe.1).map(|t| tkey(&t)).collect::<Vec<_>>()),
+                ("iter_object", (false, false, true), RingIterator::with_object(&ring, &probe.2).map(|t| tkey(&t)).collect::<Vec<_>>()),
+            ] {
+                let exp = model_find(m, &pattern(s, probe));
+                if let Some(k) = list_kind(&mut v, &exp) {
+                    out.push((api.into(), shape_name(s), k.into(), json!({"term": format!("{probe:?}")})));
+                }
+            }
+        }
+        out
+    });
+    match res {
+        Ok(devs) => {
+            for (api, shape, kind, mut d) in devs {
+                d["data"] = data();
+                dev(cx, &api, &shape, &kind, d);
+            }
+        }
+        Err(p) => cx.panic("TripleRing lookups", p),
+    }
+}
+
+fn store_case(seed: u64, case: u64, u: &Universe, rule_dup: bool, rule_keep: bool) -> Log {
+    let mut log = Log::default();
+    let mut r = Rng::new(seed, "C13.store", case);
+    let idx = case % 2 == 0;
+    let n_ops = match r.below(10) {
+        0 => 1 + r.below(5),
+        1..=3 => 5 + r.below(60),
+        _ => 40 + r.below(361),
+    };
+    // per-case sub-universe: a small one makes duplicates and hits frequent
+    let take = |r: &mut Rng, v: &[Term], lo: usize| -> Vec<Term> {
+        let mut v = v.to_vec();
+        r.shuffle(&mut v);
+        v.truncate(lo + r.below(v.len() - lo + 1));
+        v
+    };
+    let subj = take(&mut r, &u.subj, 2);
+    let pred = take(&mut r, &u.pred, 1);
+    let obj = take(&mut r, &u.obj, 3);
+    let st = RdfStore::with_config(RdfStoreConfig { initial_capacity: 1 + r.below(64), index_objects: idx });
+    let mut m: Model = Model::new();
+    let mut overlays: BTreeMap<u64, Vec<POp>> = BTreeMap::new();
+    let mut hist: Vec<String> = Vec::new();
+    let mut cx = StoreCtx { log: &mut log, idx, rule_dup, rule_keep };
+    let (mut dup_inserts, mut hit_removes, mut absent_removes) = (0u64, 0u64, 0u64);
+    let rand_triple = |r: &mut Rng| Triple::new(r.pick(&subj).clone(), r.pick(&pred).clone(), r.pick(&obj).clone());
+    for step in 0..n_ops {
+        let from_model = |r: &mut Rng, m: &Model| -> Option<Triple> {
+            if m.is_empty() {
+                return None;
+            }
+            let i = r.below(m.len());
+            m.values().nth(i).cloned()
+        };
+        let kind = r.weighted(&[46, 30, 2, 8, 6, 3, 2, 3]);
+        let mut touched: Option<Triple> = None;
+        match kind {
+            0 => {
+                let t = if r.chance(0.2) { from_model(&mut r, &m) } else { None }.unwrap_or_else(|| rand_triple(&mut r));
+                let fresh = !m.contains_key(&tkey(&t));
+                if !fresh {
+                    dup_inserts += 1;
+                }
+                hist.push(format!("insert {}", nt(&t)));
+                match catch(|| st.insert(t.clone())) {
+                    Ok(b) if b != fresh => cx.dev("insert", "-", "return", json!({"returned": b, "history": hist})),
+                    Ok(_) => {}
+                    Err(p) => cx.panic("insert", p),
+                }
+                m.insert(tkey(&t), t.clone());
+                cx.log.count("store.op.insert", 1);
+                touched = Some(t);
+            }
+            1 => {
+                let t = if r.chance(0.6) { from_model(&mut r, &m) } else { None }.unwrap_or_else(|| rand_triple(&mut r));
+                let present = m.contains_key(&tkey(&t));
+                if present {
+                    hit_removes += 1;
+                } else {
+                    absent_removes += 1;
+                }
+                hist.push(format!("remove {}", nt(&t)));
+                match catch(|| st.remove(&t)) {
+                    Ok(b) if b != present => cx.dev("remove", "-", "return", json!({"returned": b, "history": hist})),
+                    Ok(_) => {}
+                    Err(p) => cx.panic("remove", p),
+                }
+                m.remove(&tkey(&t));
+                cx.log.count("store.op.remove", 1);
+                touched = Some(t);
+            }
+            2 => {
+                hist.push("clear".into());
+                if let Err(p) = catch(|| st.clear()) {
+                    cx.panic("clear", p);
+                }
+                m.clear();
+                cx.log.count("store.op.clear", 1);
+            }
+            3 | 4 => {
+                let tx = 10 + r.below(2) as u64;
+                let t = if r.chance(0.45) { from_model(&mut r, &m) } else { None }
+                    .or_else(|| {
+                        // or a triple this transaction already touched
+                        let ops = overlays.get(&tx)?;
+                        if ops.is_empty() || !r.chance(0.5) {
+                            return None;
+                        }
+                        Some(match r.pick(ops) {
+                            POp::Ins(t) | POp::Del(t) => t.clone(),
+                        })
+                    })
+                    .unwrap_or_else(|| rand_triple(&mut r));
+                if kind == 3 {
+                    hist.push(format!("insert_in_tx {tx} {}", nt(&t)));
+                    if let Err(p) = catch(|| st.insert_in_tx(TxId::new(tx), t.clone())) {
+                        cx.panic("insert_in_tx", p);
+                    }
+                    overlays.entry(tx).or_default().push(POp::Ins(t.clone()));
+                    cx.log.count("store.op.insert_in_tx", 1);
+                } else {
+                    hist.push(format!("remove_in_tx {tx} {}", nt(&t)));
+                    if let Err(p) = catch(|| st.remove_in_tx(TxId::new(tx), t.clone())) {
+                        cx.panic("remove_in_tx", p);
+                    }
+                    overlays.entry(tx).or_default().push(POp::Del(t.clone()));
+                    cx.log.count("store.op.remove_in_tx", 1);
+                }
+                touched = Some(t);
+            }
+            5 | 6 => {
+                let tx = 10 + r.below(2) as u64;
+                let ops = overlays.remove(&tx).unwrap_or_default();
+                let commit = kind == 5;
+                hist.push(format!("{} {tx}", if commit { "commit_tx" } else { "rollback_tx" }));
+                let res = catch(|| if commit { st.commit_tx(TxId::new(tx)) } else { st.rollback_tx(TxId::new(tx)) });
+                match res {
+                    Ok(n) if n != ops.len() => cx.dev(if commit { "commit_tx" } else { "rollback_tx" }, "-", "return", json!({"returned": n, "pending": ops.len(), "history": hist})),
+                    Ok(_) => {}
+                    Err(p) => cx.panic("commit_tx/rollback_tx", p),
+                }
+                if commit {
+                    for op in &ops {
+                        match op {
+                            POp::Ins(t) => {
+                                m.insert(tkey(t), t.clone());
+                            }
+                            POp::Del(t) => {
+                                m.remove(&tkey(t));
+                            }
+                        }
+                    }
+                    touched = ops.last().map(|o| match o {
+                        POp::Ins(t) | POp::Del(t) => t.clone(),
+                    });
+                }
+                cx.log.count(if commit { "store.op.commit_tx" } else { "store.op.rollback_tx" }, 1);
+            }
+            _ => {
+                // insert of a triple that is already there / remove of one that is not, back to back
+                let t = rand_triple(&mut r);
+                hist.push(format!("insert+insert+remove+remove {}", nt(&t)));
+                let fresh = !m.contains_key(&tkey(&t));
+                let res = catch(|| (st.insert(t.clone()), st.insert(t.clone()), st.remove(&t), st.remove(&t)));
+                match res {
+                    Ok(got) if got != (fresh, false, true, false) => cx.dev("insert/remove", "-", "return", json!({"returned": format!("{got:?}"), "history": hist})),
+                    Ok(_) => {}
+                    Err(p) => cx.panic("insert/remove", p),
+                }
+                m.remove(&tkey(&t));
+                dup_inserts += 1;
+                absent_removes += 1;
+                cx.log.count("store.op.double", 1);
+                touched = Some(t);
+            }
+        }
+        let mut probes: Vec<(Term, Term, Term)> = Vec::new();
+        if let Some(t) = &touched {
+            probes.push((t.subject().clone(), t.predicate().clone(), t.object().clone()));
+        }
+        probes.push((r.pick(&subj).clone(), r.pick(&pred).clone(), r.pick(&obj).clone()));
+        let tail = || json!(hist.iter().rev().take(12).rev().collect::<Vec<_>>());
+        check_lookups(&mut cx, &st, &m, &overlays, &probes, &tail);
+        if step % 32 == 31 || step + 1 == n_ops {
+            check_full(&mut cx, &st, &m, &tail);
+            // the ring is built from what the store itself hands out
+            let from_store: Model = st.triples().iter().map(|t| (tkey(t), (**t).clone())).collect();
+            check_ring(&mut cx, &mut r, &from_store, &probes);
+            if from_store.len() != m.len() {
+                check_ring(&mut cx, &mut r, &m, &probes);
+            }
+        }
+    }
+    if dup_inserts > 0 && hit_removes > 0 && absent_removes > 0 {
+        log.nontrivial.push(hash_str(&hist.join("\n")));
+        log.count("store.cases_nontrivial", 1);
+    }
+    log.count(if idx { "store.cases.idxobj_on" } else { "store.cases.idxobj_off" }, 1);
+    if case < 2 {
+        log.samples.push(json!({"store_case": case, "index_objects": idx, "operations": hist.len(), "first_operations": hist.iter().take(8).collect::<Vec<_>>()}));
+    }
+    log
+}
+
+// ---------------------------------------------------------------------------------------
+// (b) query level
+// ---------------------------------------------------------------------------------------
+
+fn query_case(seed: u64, case: u64, u: &Universe, caps: &sparql::Caps, eng: &mut sparql::Engine, shrink_budget: usize, tol: sparql::Tol) -> Log {
+    let mut log = Log::default();
+    let mut r = Rng::new(seed, "C13.query", case);
+    let data = sparql::gen_data(&mut r, u);
+    eng.via_session = case % 4 == 3;
+    log.evals += 1;
+    let is_update = r.chance(0.17) && (caps.insert_data || caps.delete_data || caps.delete_where || caps.clear);
+    if is_update {
+        let up = sparql::gen_update(&mut r, u, &data, caps);
+        let text = sparql::update_sparql(&up);
+        log.count(
+            match &up {
+                sparql::Update::InsertData(_) => "sparql.update.insert_data",
+                sparql::Update::DeleteData(_) => "sparql.update.delete_data",
+                sparql::Update::DeleteWhere(_) => "sparql.update.delete_where",
+                sparql::Update::Clear(_) => "sparql.update.clear",
+            },
+            1,
+        );
+        match sparql::check_update(eng, &up, &data) {
+            Outcome::Agree { nontrivial, .. } => {
+                log.count("sparql.agree", 1);
+                if nontrivial {
+                    log.nontrivial.push(hash_str(&format!("{text}|{:?}", sparql::data_json(&data))));
+                }
+            }
+            Outcome::Rejected(e) => {
+                log.count("sparql.rejected_by_engine", 1);
+                log.rejected.push((e, text));
+            }
+            Outcome::Skipped => log.count("sparql.skipped_too_large", 1),
+            Outcome::Mismatch(m) => {
+                log.count("sparql.mismatch_before_shrinking", 1);
+                let s = sparql::shrink_update(eng, &up, &data, m, shrink_budget);
+                log.count("sparql.shrink_checks", s.checks as u64);
+                let sig = format!("sparql:{}|{}", sparql::update_skeleton(&s.case, &s.mismatch), s.mismatch.kind);
+                log.nontrivial.push(hash_str(&format!("{text}|{:?}", sparql::data_json(&data))));
+                log.deviation(
+                    &sig,
+                    json!({"case": case, "update": sparql::update_sparql(&s.case), "data": sparql::data_json(&s.data), "mismatch": s.mismatch.detail,
+                           "original_update": text, "original_data": sparql::data_json(&data)}),
+                );
+            }
+        }
+        return log;
+    }
+    let q = sparql::gen_query(&mut r, u, &data, caps);
+    let text = sparql::query_sparql(&q);
+    for f in sparql::query_skeleton(&q).split('+') {
+        let f = f.split('[').next().unwrap();
+        log.count(&format!("sparql.feature.{f}"), 1);
+    }
+    if case < 4 {
+        log.samples.push(json!({"query_case": case, "query": text, "data": sparql::data_json(&data)}));
+    }
+    match sparql::check_query(eng, &q, &data, tol) {
+        Outcome::Agree { nontrivial, under } => {
+            if under.is_empty() {
+                log.count("sparql.agree", 1);
+            } else {
+                log.count("sparql.explained_by_open_rules", 1);
+                for r in under {
+                    log.known_rule(r, || format!("rule:{r} {text}"));
+                }
+            }
+            if nontrivial {
+                log.count("sparql.agree_nonempty_answer", 1);
+                log.nontrivial.push(hash_str(&format!("{text}|{:?}", sparql::data_json(&data))));
+            }
+        }
+        Outcome::Rejected(e) => {
+            log.count("sparql.rejected_by_engine", 1);
+            log.rejected.push((e, text));
+        }
+        Outcome::Skipped => log.count("sparql.skipped_too_large", 1),
+        Outcome::Mismatch(m) => {
+            log.count("sparql.mismatch_before_shrinking", 1);
+            let s = sparql::shrink_query(eng, &q, &data, m, shrink_budget, tol);
+            log.count("sparql.shrink_checks", s.checks as u64);
+            let mut sk = sparql::query_skeleton(&s.case);
+            if s.mismatch.kind == "wrong slice" {
+                // LIMIT / OFFSET are what "slice" already says
+                sk = sk.replace("+limit", "").replace("+offset", "");
+            }
+            let sig = format!("sparql:{sk}|{}", s.mismatch.kind);
+            log.nontrivial.push(hash_str(&format!("{text}|{:?}", sparql::data_json(&data))));
+            log.deviation(
+                &sig,
+                json!({"case": case, "query": sparql::query_sparql(&s.case), "data": sparql::data_json(&s.data), "mismatch": s.mismatch.detail,
+                       "original_query": text, "original_data": sparql::data_json(&data)}),
+            );
+        }
+    }
+    log
+}
+
+// ---------------------------------------------------------------------------------------
+// (c) SPARQL inside a session transaction: directed matrix
+// ---------------------------------------------------------------------------------------
+
+fn tx_matrix(rep: &mut Report) {
+    use grafeo_engine::GrafeoDB;
+    let t0 = "<http://e/a> <http://e/p> <http://e/b> .";
+    let t1 = "<http://e/c> <http://e/p> <http://e/d> .";
+    let count = |s: &grafeo_engine::Session| -> Result<i64, String> {
+        let r = s.execute_sparql("SELECT (COUNT(*) AS ?cnt) WHERE { ?a ?b ?c . }").map_err(|e| e.to_string())?;
+        match r.rows.first().and_then(|x| x.first()) {
+            Some(grafeo_common::types::Value::Int64(n)) => Ok(*n),
+            other => Err(format!("unexpected count cell {other:?}")),
+        }
+    };
+    // (write inside the transaction, expected count seen inside, after commit, after rollback); start: {t0}
+    let cells: [(&str, String, i64, i64, i64); 4] = [
+        ("insert_data", format!("INSERT DATA {{ {t1} }}"), 2, 2, 1),
+        ("delete_data", format!("DELETE DATA {{ {t0} }}"), 0, 0, 1),
+        ("insert_data_duplicate", format!("INSERT DATA {{ {t0} }}"), 1, 1, 1),
+        ("insert_then_delete_data", format!("INSERT DATA {{ {t1} }} ;; DELETE DATA {{ {t1} }}"), 1, 1, 1),
+    ];
+    for (name, writes, want_in, want_commit, want_rollback) in cells {
+        for end in ["commit", "rollback"] {
+            rep.eval();
+            rep.count("tx_matrix.cells", 1);
+            let res = catch(|| -> Result<(i64, i64), String> {
+                let db = GrafeoDB::new_in_memory();
+                db.execute_sparql(&format!("INSERT DATA {{ {t0} }}")).map_err(|e| e.to_string())?;
+                let mut s = db.session();
+                s.begin_tx().map_err(|e| e.to_string())?;
+                for w in writes.split(";;") {
+                    s.execute_sparql(w.trim()).map_err(|e| e.to_string())?;
+                }
+                let inside = count(&s)?;
+                if end == "commit" { s.commit() } else { s.rollback() }.map_err(|e| e.to_string())?;
+                let after = count(&db.session())?;
+                Ok((inside, after))
+            });
+            let want_after = if end == "commit" { want_commit } else { want_rollback };
+            match res {
+                Ok(Ok((inside, after))) => {
+                    rep.nontrivial(hash_str(&format!("tx{name}{end}")));
+                    if inside != want_in {
+                        rep.deviation(&format!("tx:{name}|read_inside_tx"), json!({"writes": writes, "count_seen_inside": inside, "expected": want_in, "start": [t0]}));
+                    }
+                    if after != want_after {
+                        rep.deviation(&format!("tx:{name}|after_{end}"), json!({"writes": writes, "count_after": after, "expected": want_after, "start": [t0]}));
+                    }
+                }
+                Ok(Err(e)) => rep.count(&format!("tx_matrix.rejected.{}", e.chars().take(40).collect::<String>()), 1),
+                Err(p) => rep.deviation(&format!("panic@{}", p.site), json!({"writes": writes, "panic": p.msg, "at": p.at})),
+            }
+        }
+    }
+}
+
+// ---------------------------------------------------------------------------------------
+
+pub fn run(tier: Tier, seed: u64) -> ! {
+    let mut rep = Report::new("C13", tier, seed, "exploration");
+    rep.rule = "stores: random sequences of 1-400 insert/remove/clear/tx-buffer operations over a sub-universe of 12 IRIs, 2 blank nodes and 18 plain/language-tagged/typed literals; after every operation all eight bound/unbound shapes of find, find_with_pending, triples_with_*, contains, len, stats against an ordered-set model, alternating index_objects; TripleRing rebuilt every 32 operations. non-trivial store case = contains a duplicate insert, a removal of a present and of an absent triple (distinct by operation history). queries: 1-4 triple patterns, OPTIONAL/UNION nesting <= 2, FILTER, DISTINCT, ORDER/LIMIT/OFFSET, COUNT/GROUP BY, updates, over 0-16 random triples; non-trivial = reference answer non-empty / update changes the set / mismatch (distinct by query text + data)".into();
+    let u = sparql::universe();
+    let rule_dup = rep.findings.rule_open(RULE_DUP);
+    let rule_keep = rep.findings.rule_open(RULE_KEEP);
+    let mut rejected: BTreeMap<String, (u64, String)> = BTreeMap::new();
+
+    let t0 = std::time::Instant::now();
+    // (a)
+    let n_stores = tier.pick(300u64, 20_000);
+    for l in par_cases(n_stores, |c| store_case(seed, c, &u, rule_dup, rule_keep)) {
+        l.merge_into(&mut rep, &mut rejected);
+    }
+
+    let wall_stores = t0.elapsed().as_secs_f64();
+    // (b)
+    let mut probe_eng = sparql::Engine::new();
+    let (caps, refused) = sparql::probe(&mut probe_eng);
+    let n_queries = tier.pick(1_500u64, 150_000);
+    let budget = 400;
+    let tol = sparql::Tol { null_as_empty: rep.findings.rule_open(sparql::RULE_NULL), distinct_noop: rep.findings.rule_open(sparql::RULE_DISTINCT) };
+    let threads = std::thread::available_parallelism().map(|x| x.get()).unwrap_or(4).min(16) as u64;
+    // one engine per worker thread (thread-local), reused across that worker's cases
+    thread_local! { static ENG: std::cell::RefCell<Option<sparql::Engine>> = const { std::cell::RefCell::new(None) }; }
+    let _ = threads;
+    for l in par_cases(n_queries, |c| {
+        ENG.with(|e| {
+            let mut e = e.borrow_mut();
+            let eng = e.get_or_insert_with(sparql::Engine::new);
+            query_case(seed, c, &u, &caps, eng, budget, tol)
+        })
+    }) {
+        l.merge_into(&mut rep, &mut rejected);
+    }
+
+    let wall_queries = t0.elapsed().as_secs_f64() - wall_stores;
+    // (c)
+    tx_matrix(&mut rep);
+    rep.extra.insert("phase_wall_s".into(), json!({"stores": wall_stores, "queries": wall_queries}));
+
+    let mut assumptions = vec![
+        "solutions are compared after rendering every term the way the engine's result columns do (IRI text, _:label, lexical form of a literal); that result cells carry no datatype / language tag / term kind is not judged, only which solutions come back".to_string(),
+        "an engine Err is not a violation (counted as sparql.rejected_by_engine and listed in rejected_queries); only wrong answers and panics are".to_string(),
+        "ORDER BY is judged only where SPARQL 15.1 defines the order (unbound < blank < IRI < literal, numeric by value, simple literals by code point, IRIs by code point); other pairs may come in any order".to_string(),
+        "reference answers larger than 4000 intermediate solutions are skipped (counter sparql.skipped_too_large)".to_string(),
+        "RdfStoreStats.object_count is expected to be 0 when index_objects is off, as its doc comment says".to_string(),
+        "LeapfrogRing is a documented placeholder ('simplified implementation') and is not judged; TripleRing and RingIterator are".to_string(),
+        "a UNION whose branches bind different variables is generated; when the query then projects / orders by a variable that only a later branch binds the engine answers Err 'Variable not found' (a consequence of C13-Q14) - counted as rejected, not judged".to_string(),
+        "FILTER atoms are ?v <op> <numeric constant> and bound(?v), combined with ! && ||; comparisons between two variables or against IRIs / strings are not generated".to_string(),
+        "open findings C13-Q1 (unbound shown as empty string) and C13-Q2 (DISTINCT ignored) are modelled as tolerances of the comparison: an answer they explain is a KNOWN-FINDING, and shrinking looks for disagreements they do not explain; with the finding closed the tolerance is off".to_string(),
+    ];
+    assumptions.extend(refused);
+    rep.assumptions = assumptions;
+    let rj: Vec<J> = rejected.iter().map(|(msg, (n, text))| json!({"error": msg, "times": n, "example": text})).collect();
+    rep.extra.insert("rejected_queries".into(), json!(rj));
+    rep.extra.insert("front_end_accepts".into(), json!(format!("{caps:?}")));
+    rep.finish()
 }
